@@ -30,8 +30,10 @@ Not covered: fatal predecessors end the run (the successor is not assembled: sta
 compare); statics inside code generators are only visible through their effect on the golden successors; flags
 are compared pairwise with identical asflags only (options are per invocation).
 
-Finding on the pinned tree: DOTTEDSTRUCTS ON survives into the next file (and the next pass): DottedStructs is
-missing from AssembleFile_InitPass -> known_findings/C18.json, proposed_fixes/C18-dottedstructs-reset.diff.
+Finding on the tree as originally pinned: DOTTEDSTRUCTS ON survives into the next file (and the next pass):
+DottedStructs was missing from AssembleFile_InitPass -> known_findings/C18.json,
+proposed_fixes/C18-dottedstructs-reset.diff (applied to /repo by the coordinator).  It was the only dependence among
+all 36 296 ordered pairs of golden sources with identical asflags.
 
 Mutations of the real code (selftest/b218_mutants.py, scratch copies, all compile; `./check C18 --selftest`), every one
 reported as VIOLATION by the quick tier: RELAXED kept from the previous file; IfAsm initialised only for the first
